@@ -27,58 +27,6 @@ def Fields : Record → Prop
 
 /-! ## the playlist -/
 
-theorem litValueSearch_some (lit stops : List Char) (s v : Str) (h : litValueSearch lit stops s = some v) :
-    v ≠ [] ∧ ∀ c ∈ v, c ∉ stops := by
-  induction s with
-  | nil => simp [litValueSearch] at h
-  | cons c cs ih =>
-    simp only [litValueSearch] at h
-    cases hh : litValueHere lit stops (c :: cs) with
-    | none => rw [hh] at h; exact ih h
-    | some w =>
-      rw [hh] at h
-      simp only [Option.some.injEq] at h
-      subst h
-      unfold litValueHere at hh
-      split at hh
-      · split at hh
-        · rename_i hne
-          simp only [Option.some.injEq] at hh
-          subst hh
-          refine ⟨hne, ?_⟩
-          intro d hd
-          have := mem_takeWhile_s20 _ _ d hd
-          simpa using this
-        · simp at hh
-      · simp at hh
-
-/-- the value found is a piece of the subject -/
-theorem litValueSearch_infix (lit stops : List Char) (s v : Str) (h : litValueSearch lit stops s = some v) :
-    v <:+: s := by
-  induction s with
-  | nil => simp [litValueSearch] at h
-  | cons c cs ih =>
-    simp only [litValueSearch] at h
-    cases hh : litValueHere lit stops (c :: cs) with
-    | none => rw [hh] at h; exact (ih h).trans (List.suffix_cons _ _).isInfix
-    | some w =>
-      rw [hh] at h
-      simp only [Option.some.injEq] at h
-      subst h
-      unfold litValueHere at hh
-      cases hm : matchLit lit (c :: cs) with
-      | none => rw [hm] at hh; simp at hh
-      | some r =>
-        rw [hm] at hh
-        simp only [] at hh
-        split at hh
-        · simp only [Option.some.injEq] at hh
-          subst hh
-          obtain ⟨pre, hpre, _⟩ := matchLit_spec lit _ r hm
-          unfold valueRun
-          exact (List.takeWhile_prefix _).isInfix.trans (List.IsSuffix.isInfix ⟨pre, hpre.symm⟩)
-        · simp at hh
-
 theorem queryList_fields (s : Str) (hs : ∀ c ∈ s, isUnsafeUrlChar c = false) (pl : Option Str)
     (h : queryList s = pl) (id : Str) : Fields (.video id pl) := by
   cases pl with
@@ -260,7 +208,7 @@ theorem routePath_fields (fix : Bool) (path query : Str) (pl : Option Str) (r : 
   split at h
   · split at h
     · simp only [Except.ok.injEq] at h
-      obtain ⟨_, id, e⟩ := videoOf_valid fix _ pl r h
+      obtain ⟨id, e⟩ := videoOf_shape fix _ pl r h
       rw [e]; exact ⟨hpl id, inPath_video _ _ _⟩
     · simp at h
   · split at h
@@ -268,7 +216,7 @@ theorem routePath_fields (fix : Bool) (path query : Str) (pl : Option Str) (r : 
       split at h
       · simp at h
       · simp only [Except.ok.injEq] at h
-        obtain ⟨_, id, e⟩ := videoOf_valid fix _ pl r h
+        obtain ⟨id, e⟩ := videoOf_shape fix _ pl r h
         rw [e]; exact ⟨hpl id, inPath_video _ _ _⟩
     · split at h
       · unfold routeUser at h
@@ -360,7 +308,7 @@ theorem parseSplit_fields (fix : Bool) (parsed : SplitResult) (pl : Option Str) 
       · split at h
         · simp at h
         · simp only [Except.ok.injEq] at h
-          obtain ⟨_, id, e⟩ := videoOf_valid fix _ pl r h
+          obtain ⟨id, e⟩ := videoOf_shape fix _ pl r h
           rw [e]; exact ⟨hpl id, inPath_video _ _ _⟩
     · simp at h
   · split at h
@@ -411,7 +359,7 @@ theorem parse_fields_noCont (puny : Str → Str) (t : T) (url : Str) (fix : Bool
     fun id => queryList_fields _ hsafe _ rfl id
   split at h
   · simp only [Except.ok.injEq] at h
-    obtain ⟨_, id, e⟩ := videoOf_valid fix _ _ r h
+    obtain ⟨id, e⟩ := videoOf_shape fix _ _ r h
     rw [e]; exact ⟨hpl id, fun x hx => by simp [nameField] at hx⟩
   · rename_i hcont
     split at h
@@ -432,8 +380,9 @@ theorem parse_fields (puny : Str → Str) (t : T) (url : Str) (fix : Bool) (r : 
     (h : parse_youtube_url puny t url fix = .ok (some r)) : Fields r :=
   (parse_fields_noCont puny t url fix r h).1
 
-/-- every record the parser returns (with `fix_common_mistakes`) has what the round trip needs -/
-theorem good_of_fields (r : Record) (hv : Valid true r) (hf : Fields r)
+/-- every record the parser returns (with either value of `fix_common_mistakes`) has what the
+round trip needs -/
+theorem good_of_fields (r : Record) (hv : Valid r) (hf : Fields r)
     (hn : ∀ x, nameField r = some x → NoCont x) : Good r := by
   match r, hv, hf, hn with
   | .video _ none, _, _, _ => trivial
